@@ -581,6 +581,8 @@ class ConfigParser(object):
     species_a, species_b = tokens
     species_a = species_a.strip()
     species_b = species_b.strip()
+    if not species_a or not species_b:
+      raise ConfigParserException("Pair interactions should be labelled 'SPECIES_A-SPECIES_B'. Species label missing in: '{}'".format(k))
     return  SpeciesTuple(species_a, species_b)
 
 
@@ -610,6 +612,8 @@ class ConfigParser(object):
       from_species, to_species = tokens
       from_species = from_species.strip()
       to_species = to_species.strip()
+      if not from_species or not to_species:
+        raise ConfigParserException("density label '{}' is not of the form 'FROM_SPECIES->TO_SPECIES'".format(k))
       return  EAMFSDensitySpeciesTuple(from_species, to_species)
 
     try:
